@@ -90,6 +90,11 @@ where
         pixel: [Self::Word; N],
         count: u32,
     ) -> Result<(), Self::Error> {
+        // nothing to send; without this the `while count >= fill_count` loop below never exits
+        if count == 0 {
+            return Ok(());
+        }
+
         let fill_count = core::cmp::min(count, (self.buffer.len() / N) as u32);
         let filled_len = fill_count as usize * N;
         for chunk in self.buffer[..(filled_len)].chunks_exact_mut(N) {
